@@ -1,0 +1,12 @@
+//go:build verif
+
+// Contracts for package raw, checked by /verif/govc. Comment-only: no code.
+package raw
+
+//@ func DecodeHeader
+//@ props C13 C07
+//@ modifies nothing
+//@ ensures [size-is-a-length] imp(err == nil, reqSize >= 0)
+//@ ensures [tag-after-first-space] imp(err == nil, tag == result_of(strings.Cut, 1))
+//@ at call strconv.Atoi assert [size-field] arg(a0) == result_of(strings.Cut, 0)
+//@ at call strings.Cut assert [first-space] arg(a0) == headerString0 && arg(a1) == " "
